@@ -18,26 +18,28 @@ fn arg(args: &[String], name: &str) -> Option<String> {
     args.iter().position(|a| a == name).and_then(|i| args.get(i + 1).cloned())
 }
 
-fn digest(reg: &str) -> &'static str {
-    match reg {
-        "r0" => reg_r0::gen::POOL_DIGEST,
-        "r1" => reg_r1::gen::POOL_DIGEST,
-        "r6" => reg_r6::gen::POOL_DIGEST,
-        "r8" => reg_r8::gen::POOL_DIGEST,
-        "r10" => reg_r10::gen::POOL_DIGEST,
-        _ => "",
-    }
+macro_rules! registries {
+    ($($name:literal => $krate:ident),* $(,)?) => {
+        fn digest(reg: &str) -> &'static str {
+            match reg { $($name => $krate::gen::POOL_DIGEST,)* _ => "" }
+        }
+        fn run_reg(reg: &str, cfg: &Config) -> Report {
+            match reg { $($name => $krate::run(cfg),)* _ => panic!("unknown registry {reg}") }
+        }
+        fn replay_reg(case: &ReplayCase) -> Option<vcore::runner::ReplayOutcome> {
+            match case.registry.as_str() { $($name => Some($krate::replay(case)),)* _ => None }
+        }
+        fn run_deser_reg(reg: &str, cfg: &Config) -> vcore::deser::DeserReport {
+            match reg { $($name => $krate::run_deser(cfg),)* _ => panic!("unknown registry {reg}") }
+        }
+        fn replay_deser_reg(case: &vcore::deser::DeserReplay) -> Option<Option<String>> {
+            match case.registry.as_str() { $($name => Some($krate::replay_deser(case)),)* _ => None }
+        }
+    };
 }
-
-fn run_reg(reg: &str, cfg: &Config) -> Report {
-    match reg {
-        "r0" => reg_r0::run(cfg),
-        "r1" => reg_r1::run(cfg),
-        "r6" => reg_r6::run(cfg),
-        "r8" => reg_r8::run(cfg),
-        "r10" => reg_r10::run(cfg),
-        _ => panic!("unknown registry {reg}"),
-    }
+registries! {
+    "r0" => reg_r0, "r1" => reg_r1, "r6" => reg_r6, "r8" => reg_r8, "r10" => reg_r10,
+    "p1" => reg_p1, "p6a" => reg_p6a, "p6b" => reg_p6b, "p6c" => reg_p6c, "p10" => reg_p10,
 }
 
 fn main() {
@@ -52,7 +54,7 @@ fn main() {
             let out = arg(&args, "--out").expect("--out");
             let workers: usize = arg(&args, "--workers").and_then(|s| s.parse().ok()).unwrap_or(16);
             let cases: u32 = arg(&args, "--cases").and_then(|s| s.parse().ok()).unwrap_or(if thorough { 8000 } else { 300 });
-            let regs = arg(&args, "--regs").unwrap_or_else(|| "r6,r10,r8,r1,r0".into());
+            let regs = arg(&args, "--regs").unwrap_or_else(|| if prop == "C09" { "p6a,p6b,p6c,p10,p1".into() } else { "r6,r10,r8,r1,r0".into() });
             let excl_arg = arg(&args, "--exclude").unwrap_or_default();
             let mute = !args.iter().any(|a| a == "--no-mute");
             vcore::crash::install(&format!("{out}.crash.json"));
@@ -62,7 +64,7 @@ fn main() {
                 entry_remove_leak: excl_arg.contains("entry_remove_leak"),
             };
             // share of the case budget per registry
-            let share: BTreeMap<&str, f64> = [("r6", 1.0), ("r10", 0.4), ("r8", 0.3), ("r1", 0.15), ("r0", 0.05)].into_iter().collect();
+            let share: BTreeMap<&str, f64> = [("r6", 1.0), ("r10", 0.4), ("r8", 0.3), ("r1", 0.15), ("r0", 0.05), ("p6a", 0.4), ("p6b", 0.4), ("p6c", 0.4), ("p10", 0.3), ("p1", 0.1)].into_iter().collect();
             let mut reports = Vec::new();
             let t0 = std::time::Instant::now();
             let mut failure: Option<ReplayCase> = None;
@@ -129,6 +131,63 @@ fn main() {
             std::fs::write(&out, serde_json::to_string_pretty(&report).unwrap()).expect("write report");
             std::process::exit(if failure.is_some() { 1 } else { 0 });
         }
+        Some("deser") => {
+            let tier = arg(&args, "--tier").unwrap_or_else(|| "quick".into());
+            let thorough = tier == "thorough";
+            let seed: u64 = arg(&args, "--seed").and_then(|s| s.parse().ok()).unwrap_or(0);
+            let out = arg(&args, "--out").expect("--out");
+            let workers: usize = arg(&args, "--workers").and_then(|s| s.parse().ok()).unwrap_or(16);
+            let cases: u32 = arg(&args, "--cases").and_then(|s| s.parse().ok()).unwrap_or(500);
+            let regs = arg(&args, "--regs").unwrap_or_else(|| "r6,r10,r8,r1".into());
+            vcore::crash::install(&format!("{out}.crash.json"));
+            let share: BTreeMap<&str, f64> = [("r6", 1.0), ("r10", 0.5), ("r8", 0.4), ("r1", 0.1)].into_iter().collect();
+            let t0 = std::time::Instant::now();
+            let mut reports = Vec::new();
+            for reg in regs.split(',') {
+                let cfg = Config { prop: "C11".into(), thorough, seed, workers, cases_per_worker: ((cases as f64 * share.get(reg).copied().unwrap_or(0.2)).ceil() as u32).max(1), excl: Exclusions::default(), pool_digest: digest(reg).to_string(), mute: false };
+                let r = run_deser_reg(reg, &cfg);
+                let stop = r.failure.is_some();
+                reports.push(r);
+                if stop {
+                    break;
+                }
+            }
+            let mut classes: BTreeMap<String, u64> = BTreeMap::new();
+            let (mut evaluations, mut nontrivial) = (0u64, 0u64);
+            let mut samples = Vec::new();
+            let mut per_reg = serde_json::Map::new();
+            let mut failure = None;
+            for r in &reports {
+                evaluations += r.evaluations;
+                nontrivial += r.nontrivial.len() as u64;
+                for (k, v) in &r.classes {
+                    *classes.entry(k.clone()).or_insert(0) += v;
+                }
+                samples.extend(r.samples.iter().take(1).cloned());
+                per_reg.insert(r.registry.clone(), serde_json::json!({"evaluations": r.evaluations, "distinct_nontrivial": r.nontrivial.len(), "wall_s": r.wall_s, "pool_digest": digest(&r.registry)}));
+                if failure.is_none() {
+                    failure = r.failure.clone();
+                }
+            }
+            let report = serde_json::json!({"property": "C11", "tier": tier, "seed": seed, "evaluations": evaluations, "distinct_nontrivial": nontrivial, "classes": classes, "registries": per_reg, "samples": samples, "failure": failure, "wall_s": t0.elapsed().as_secs_f64()});
+            std::fs::write(&out, serde_json::to_string_pretty(&report).unwrap()).expect("write report");
+            std::process::exit(if failure.is_some() { 1 } else { 0 });
+        }
+        Some("replay-deser") => {
+            let path = args.get(2).expect("file");
+            let case: vcore::deser::DeserReplay = serde_json::from_str(&std::fs::read_to_string(path).expect("read")).expect("parse replay file");
+            let Some(out) = replay_deser_reg(&case) else { std::process::exit(2) };
+            match out {
+                Some(m) => {
+                    println!("REPRODUCED property={} {}", case.property, m);
+                    std::process::exit(1);
+                }
+                None => {
+                    println!("not reproduced");
+                    std::process::exit(0);
+                }
+            }
+        }
         Some("replay") => {
             let path = args.get(2).expect("file");
             let case: ReplayCase = serde_json::from_str(&std::fs::read_to_string(path).expect("read")).expect("parse replay file");
@@ -136,14 +195,7 @@ fn main() {
                 eprintln!("replay file was recorded against type pool {} but this build has {}", case.pool_digest, digest(&case.registry));
                 std::process::exit(2);
             }
-            let out = match case.registry.as_str() {
-                "r0" => reg_r0::replay(&case),
-                "r1" => reg_r1::replay(&case),
-                "r6" => reg_r6::replay(&case),
-                "r8" => reg_r8::replay(&case),
-                "r10" => reg_r10::replay(&case),
-                _ => std::process::exit(2),
-            };
+            let Some(out) = replay_reg(&case) else { std::process::exit(2) };
             if out.failed {
                 println!("REPRODUCED property={} oracle={} {}", case.property, out.oracle, out.message);
                 std::process::exit(1);
